@@ -28,6 +28,17 @@ CLAIMS["C08"] = (
     "mapping per rule is not checked). Termination in general is not decided, only the presence of a limits-consulting exit in the min_growth loops.",
     "DESIGN.md 4/C08")
 
+CLAIMS["C07"] = (
+    "CFG path rules (must-pass-after / must-pass-before / branch-edge dominance) on every StorageSet::addValues and points-merge site, classification of every write to `needed`, "
+    "transitive member write sets (R-EFFECT), closed-form extent comparison (R-EXTENT), sibling agreement of buildUpdateMap",
+    "Static rule discharge over all five grid classes and every template instantiation: values are merged before the index set they are ordered by and the index merge follows on every path; "
+    "an overwriting reload replaces the values exactly when nothing is needed; every assignment to the needed set is empty, a difference with the loaded set, or made where no points are loaded; "
+    "candidate collectors append only indices tested missing from the loaded set; clearRefinement writes exactly needed/updated_*, refinement entry points never write points, values or "
+    "coefficients; the validated size of scale_correction equals the extent the refinement indexes; tolerance zero returns the refine-everything map in both local families.",
+    "Necessary structural conditions only: which points a given tolerance selects (normalised, scaled coefficient comparison) is numerical and not decided. The merge routines of "
+    "MultiIndexSet/StorageSet themselves (three-way merge, binary search) are trusted here. Rules D1.overwrite and D6 were written after seeds C07-a/b were known (see DESIGN.md).",
+    "DESIGN.md 4/C07")
+
 PENDING = {}
 
 NOT_APPLICABLE = {}
